@@ -24,3 +24,8 @@ def f2(cfg, k=3):
 
 def f3(cfg, items=()):
   cfg.y.y = list(items)
+
+
+def base3(items=()):
+  """Keeps the very object it was given (a parsed literal) in the config."""
+  return fdl.Config(nodes.node, x=0, y=fdl.Config(nodes.node_b, x=0, y=items))
